@@ -1118,4 +1118,239 @@ theorem check_idle_K (s : State) (hi : IdleK s) (hd : DatK s) (hfull : ∀ w ∈
   rw [hres]
   exact ⟨⟨rfl, rfl, rfl, rfl, rfl, hls, hstp, hrst, hwat⟩, ⟨rfl, (hk.beginStep.bump 1).bump c, hn, hall⟩, rfl, rfl⟩
 
+/-! ## Part 5: a timer fires — general lemmas -/
+
+theorem earliest_memK_aux (l : List Sleeper) : ∀ (acc : Option Sleeper) (sl : Sleeper),
+    l.foldl (fun acc s => match acc with
+      | none => some s
+      | some b => if s.deadline < b.deadline || (s.deadline = b.deadline && s.sid < b.sid) then some s else some b) acc = some sl →
+    sl ∈ l ∨ acc = some sl := by
+  induction l with
+  | nil => intro acc sl h; exact Or.inr h
+  | cons x xs ih =>
+    intro acc sl h
+    simp only [List.foldl_cons] at h
+    rcases ih _ sl h with h1 | h1
+    · exact Or.inl (List.mem_cons_of_mem _ h1)
+    · cases acc with
+      | none => simp only at h1; exact Or.inl (by simp [Option.some.inj h1])
+      | some b =>
+        simp only at h1
+        split at h1
+        · exact Or.inl (by simp [Option.some.inj h1])
+        · exact Or.inr h1
+
+theorem earliest_memK {l : List Sleeper} {sl : Sleeper} (h : earliest l = some sl) : sl ∈ l := by
+  rcases earliest_memK_aux l none sl h with h1 | h1
+  · exact h1
+  · cases h1
+
+theorem earliest_some_of_ne {l : List Sleeper} (h : l ≠ []) : ∃ sl, earliest l = some sl := by
+  cases l with
+  | nil => exact absurd rfl h
+  | cons x xs =>
+    unfold earliest
+    simp only [List.foldl_cons]
+    have key : ∀ (ys : List Sleeper) (b : Sleeper), ∃ sl, ys.foldl (fun acc s => match acc with
+        | none => some s
+        | some b => if s.deadline < b.deadline || (s.deadline = b.deadline && s.sid < b.sid) then some s else some b) (some b) = some sl := by
+      intro ys
+      induction ys with
+      | nil => intro b; exact ⟨b, rfl⟩
+      | cons y ys ih =>
+        intro b
+        simp only [List.foldl_cons]
+        split
+        · exact ih y
+        · exact ih b
+    exact key xs x
+
+theorem find_fid_of_mem {l : List Frame} (hn : (l.map (·.fid)).Nodup) {g : Frame} (hg : g ∈ l) :
+    l.find? (fun x => decide (x.fid = g.fid)) = some g := by
+  induction l with
+  | nil => cases hg
+  | cons x xs ih =>
+    simp only [List.map_cons, List.nodup_cons] at hn
+    rcases List.mem_cons.mp hg with rfl | hg'
+    · simp
+    · have hne : ¬ x.fid = g.fid := fun he => hn.1 (he ▸ List.mem_map_of_mem hg')
+      simp only [List.find?_cons, hne, decide_false]
+      exact ih hn.2 hg'
+
+/-- a result arrives for an armed, suspended coroutine that is not a `gen.multi`: its frame is released, the
+    continuation goes on the ready queue -/
+theorem deliver_armed_of (rec : Rec) (fid slot : Nat) (v : Val) (s : State) (f : Frame)
+    (hf : s.frames.find? (fun g => decide (g.fid = fid)) = some f) (ha : f.armed = true) (hk : ∀ n r, f.k ≠ .multi n r) :
+    deliver rec (.frame fid slot) v s =
+      ((), { s with frames := s.frames.filter (fun g => decide (g.fid ≠ fid)), ready := s.ready ++ [.resume f.k v f.parent] }) := by
+  unfold deliver
+  simp only [bind, getS, hf]
+  cases hfk : f.k <;> first | (exfalso; exact hk _ _ hfk) | simp [removeFrame, enqueue, modS, ha]
+
+/-- **the stimulus `wake`**: the earliest timer leaves the list, the clock jumps to its deadline (nothing dies in a
+    still kernel), the coroutine it belongs to is resumed through the ready queue -/
+theorem wake_op_K (s : State) (sl : Sleeper) (fid : Nat) (f : Frame) (hk : s.k.Still)
+    (he : earliest s.sleepers = some sl) (hw : sl.waiter = .frame fid 0)
+    (hf : s.frames.find? (fun g => decide (g.fid = fid)) = some f) (ha : f.armed = true) (hnm : ∀ n r, f.k ≠ .multi n r) :
+    (stepOp .wake (updK Kernel.beginStep s).2).2 =
+      { s with k := { s.k.beginStep with now := max s.k.beginStep.now sl.deadline },
+               sleepers := s.sleepers.filter (fun x => decide (x.sid ≠ sl.sid)),
+               frames := s.frames.filter (fun g => decide (g.fid ≠ fid)),
+               ready := s.ready ++ [.resume f.k .unit f.parent] } := by
+  simp only [stepOp, bind, getS, updK, runK, he, fireSleeper, modS, hw, hk.beginStep.setNow]
+  have hd := deliver_armed_of (exec fuelDefault) fid 0 .unit
+    { s with k := { s.k.beginStep with now := max s.k.beginStep.now sl.deadline },
+             sleepers := s.sleepers.filter (fun x => decide (x.sid ≠ sl.sid)) } f hf ha hnm
+  rw [hd]
+
+theorem pkFrames_split (i : Nat) (pre post : List PK) (p : PK) :
+    pkFrames i (pre ++ p :: post) = pkFrames i pre ++ ([p.mtFrame i, p.slFrame] ++ pkFrames i post) := by
+  simp [pkFrames]
+
+theorem pkIds_split (pre post : List PK) (p : PK) : pkIds (pre ++ p :: post) = pkIds pre ++ ([p.mt, p.sl] ++ pkIds post) := by
+  simp [pkIds]
+
+theorem pkFrames_fids (i : Nat) (P : List PK) : (pkFrames i P).map (·.fid) = pkIds P := by
+  induction P with
+  | nil => rfl
+  | cons p r ih =>
+    have h1 : pkFrames i (p :: r) = [p.mtFrame i, p.slFrame] ++ pkFrames i r := rfl
+    have h2 : pkIds (p :: r) = [p.mt, p.sl] ++ pkIds r := rfl
+    rw [h1, h2, List.map_append, ih]
+    rfl
+
+theorem mem_pkIds {P : List PK} {x : Nat} : x ∈ pkIds P ↔ ∃ q ∈ P, x = q.mt ∨ x = q.sl := by
+  simp [pkIds]
+
+/-- what pairwise different frame ids say about one parked loop among the others -/
+theorem pkIds_nodup_split {pre post : List PK} {p : PK} (h : (pkIds (pre ++ p :: post)).Nodup) :
+    p.mt ≠ p.sl ∧ (∀ q ∈ pre ++ post, q.mt ≠ p.mt ∧ q.mt ≠ p.sl ∧ q.sl ≠ p.mt ∧ q.sl ≠ p.sl) ∧ (pkIds (pre ++ post)).Nodup := by
+  rw [pkIds_split] at h
+  have h1 := List.nodup_append.mp h
+  have h2 := List.nodup_append.mp h1.2.1
+  have hmid : ([p.mt, p.sl] : List Nat).Nodup := h2.1
+  refine ⟨by simpa using hmid, ?_, ?_⟩
+  · intro q hq
+    rcases List.mem_append.mp hq with hq | hq
+    · have hm : q.mt ∈ pkIds pre := mem_pkIds.mpr ⟨q, hq, Or.inl rfl⟩
+      have hs : q.sl ∈ pkIds pre := mem_pkIds.mpr ⟨q, hq, Or.inr rfl⟩
+      have a1 := h1.2.2 q.mt hm p.mt (by simp)
+      have a2 := h1.2.2 q.mt hm p.sl (by simp)
+      have a3 := h1.2.2 q.sl hs p.mt (by simp)
+      have a4 := h1.2.2 q.sl hs p.sl (by simp)
+      exact ⟨a1, a2, a3, a4⟩
+    · have hm : q.mt ∈ pkIds post := mem_pkIds.mpr ⟨q, hq, Or.inl rfl⟩
+      have hs : q.sl ∈ pkIds post := mem_pkIds.mpr ⟨q, hq, Or.inr rfl⟩
+      have a1 := h2.2.2 p.mt (by simp) q.mt hm
+      have a2 := h2.2.2 p.sl (by simp) q.mt hm
+      have a3 := h2.2.2 p.mt (by simp) q.sl hs
+      have a4 := h2.2.2 p.sl (by simp) q.sl hs
+      exact ⟨fun e => a1 e.symm, fun e => a2 e.symm, fun e => a3 e.symm, fun e => a4 e.symm⟩
+  · have : pkIds (pre ++ post) = pkIds pre ++ pkIds post := by simp [pkIds]
+    rw [this]
+    apply List.nodup_append.mpr
+    refine ⟨h1.1, h2.2.1, ?_⟩
+    intro a ha b hb
+    exact h1.2.2 a ha b (by simp [hb])
+
+theorem filter_pkFrames_id {i x : Nat} {Q : List PK} (h : ∀ q ∈ Q, q.mt ≠ x ∧ q.sl ≠ x) :
+    (pkFrames i Q).filter (fun g => decide (g.fid ≠ x)) = pkFrames i Q := by
+  apply List.filter_eq_self.mpr
+  intro g hg
+  obtain ⟨q, hq, hgq | hgq⟩ := mem_pkFrames hg
+  · have := (h q hq).1; rw [hgq]; simp [PK.mtFrame, this]
+  · have := (h q hq).2; rw [hgq]; simp [PK.slFrame, this]
+
+/-- the frames after the loop of `p` has been resumed and parked again as `p'` -/
+theorem rest_respawn (i : Nat) (pre post : List PK) (p p' : PK) (rest : List Frame)
+    (hperm : rest.Perm (pkFrames i (pre ++ p :: post))) (hnd : (pkIds (pre ++ p :: post)).Nodup)
+    (hmt : p'.mtFrame i = p.mtFrame i) :
+    (rest.filter (fun g => decide (g.fid ≠ p.sl)) ++ [p'.slFrame]).Perm (pkFrames i (pre ++ p' :: post)) := by
+  obtain ⟨hne, hoth, _⟩ := pkIds_nodup_split hnd
+  have h1 := hperm.filter (fun g => decide (g.fid ≠ p.sl))
+  rw [pkFrames_split, List.filter_append, List.filter_append,
+    filter_pkFrames_id (fun q hq => ⟨(hoth q (by simp [hq])).2.1, (hoth q (by simp [hq])).2.2.2⟩),
+    filter_pkFrames_id (fun q hq => ⟨(hoth q (by simp [hq])).2.1, (hoth q (by simp [hq])).2.2.2⟩)] at h1
+  have hmid : [p.mtFrame i, p.slFrame].filter (fun g => decide (g.fid ≠ p.sl)) = [p.mtFrame i] := by
+    simp [PK.mtFrame, PK.slFrame, hne]
+  rw [hmid] at h1
+  rw [pkFrames_split, hmt]
+  refine (h1.append_right _).trans ?_
+  rw [List.append_assoc]
+  apply List.Perm.append_left
+  simp only [List.cons_append, List.nil_append]
+  exact List.Perm.cons _ (List.perm_append_singleton _ _)
+
+/-- the frames after the loop of `p` and the continuation of its `manage_processes` have been released -/
+theorem rest_finish (i : Nat) (pre post : List PK) (p : PK) (rest : List Frame)
+    (hperm : rest.Perm (pkFrames i (pre ++ p :: post))) (hnd : (pkIds (pre ++ p :: post)).Nodup) :
+    ((rest.filter (fun g => decide (g.fid ≠ p.sl))).filter (fun g => decide (g.fid ≠ p.mt))).Perm (pkFrames i (pre ++ post)) := by
+  obtain ⟨hne, hoth, _⟩ := pkIds_nodup_split hnd
+  have h1 := (hperm.filter (fun g => decide (g.fid ≠ p.sl))).filter (fun g => decide (g.fid ≠ p.mt))
+  rw [pkFrames_split, List.filter_append, List.filter_append, List.filter_append, List.filter_append,
+    filter_pkFrames_id (fun q hq => ⟨(hoth q (by simp [hq])).2.1, (hoth q (by simp [hq])).2.2.2⟩),
+    filter_pkFrames_id (fun q hq => ⟨(hoth q (by simp [hq])).2.1, (hoth q (by simp [hq])).2.2.2⟩),
+    filter_pkFrames_id (fun q hq => ⟨(hoth q (by simp [hq])).1, (hoth q (by simp [hq])).2.2.1⟩),
+    filter_pkFrames_id (fun q hq => ⟨(hoth q (by simp [hq])).1, (hoth q (by simp [hq])).2.2.1⟩)] at h1
+  have hmid : ([p.mtFrame i, p.slFrame].filter (fun g => decide (g.fid ≠ p.sl))).filter (fun g => decide (g.fid ≠ p.mt)) = [] := by
+    simp [PK.mtFrame, PK.slFrame, hne]
+  rw [hmid] at h1
+  have : pkFrames i (pre ++ post) = pkFrames i pre ++ pkFrames i post := by simp [pkFrames]
+  rw [this]
+  simpa using h1
+
+theorem timers_split (pre post : List PK) (p : PK) :
+    (pre ++ p :: post).map PK.timer = pre.map PK.timer ++ (p.timer :: post.map PK.timer) := by simp
+
+theorem sids_nodup_split {pre post : List PK} {p : PK} (h : ((pre ++ p :: post).map (·.sid)).Nodup) :
+    (∀ q ∈ pre ++ post, q.sid ≠ p.sid) ∧ ((pre ++ post).map (·.sid)).Nodup := by
+  rw [List.map_append, List.map_cons] at h
+  have h1 := List.nodup_append.mp h
+  have h2 := List.nodup_cons.mp h1.2.1
+  refine ⟨?_, ?_⟩
+  · intro q hq
+    rcases List.mem_append.mp hq with hq | hq
+    · exact h1.2.2 q.sid (List.mem_map_of_mem hq) p.sid (by simp)
+    · intro he
+      exact h2.1 (he ▸ List.mem_map_of_mem hq)
+  · rw [List.map_append]
+    apply List.nodup_append.mpr
+    refine ⟨h1.1, h2.2, ?_⟩
+    intro a ha b hb
+    exact h1.2.2 a ha b (by simp [hb])
+
+/-- the timers after the timer of `p` fired -/
+theorem timers_fired (pre post : List PK) (p : PK) (sls : List Sleeper)
+    (hperm : sls.Perm ((pre ++ p :: post).map PK.timer)) (hnd : ((pre ++ p :: post).map (·.sid)).Nodup) :
+    (sls.filter (fun x => decide (x.sid ≠ p.timer.sid))).Perm ((pre ++ post).map PK.timer) := by
+  obtain ⟨hoth, _⟩ := sids_nodup_split hnd
+  have h1 := hperm.filter (fun x => decide (x.sid ≠ p.timer.sid))
+  rw [timers_split, List.filter_append, List.filter_cons] at h1
+  have hself : decide (p.timer.sid ≠ p.timer.sid) = false := by simp
+  have hpre : (pre.map PK.timer).filter (fun x => decide (x.sid ≠ p.timer.sid)) = pre.map PK.timer := by
+    apply List.filter_eq_self.mpr
+    intro x hx
+    obtain ⟨q, hq, rfl⟩ := List.mem_map.mp hx
+    have := hoth q (by simp [hq])
+    simp [PK.timer, this]
+  have hpost : (post.map PK.timer).filter (fun x => decide (x.sid ≠ p.timer.sid)) = post.map PK.timer := by
+    apply List.filter_eq_self.mpr
+    intro x hx
+    obtain ⟨q, hq, rfl⟩ := List.mem_map.mp hx
+    have := hoth q (by simp [hq])
+    simp [PK.timer, this]
+  rw [hself, hpre, hpost] at h1
+  simpa using h1
+
+/-- … and after `p` parked again as `p'` -/
+theorem timers_reparked (pre post : List PK) (p p' : PK) (sls : List Sleeper)
+    (hperm : sls.Perm ((pre ++ p :: post).map PK.timer)) (hnd : ((pre ++ p :: post).map (·.sid)).Nodup) :
+    (sls.filter (fun x => decide (x.sid ≠ p.timer.sid)) ++ [p'.timer]).Perm ((pre ++ p' :: post).map PK.timer) := by
+  have h1 := timers_fired pre post p sls hperm hnd
+  rw [timers_split]
+  refine (h1.append_right _).trans ?_
+  rw [List.map_append, List.append_assoc]
+  apply List.Perm.append_left
+  exact List.perm_append_singleton _ _
+
 end Circus.Core
